@@ -537,6 +537,11 @@ impl Builder {
                 let child = format!("{d}/child.txt");
                 conflict.push((child.clone(), d.clone()));
                 cands.push(child);
+                // ... and into a directory TREE (intermediate directories the patch engine creates
+                // on the way and has to clear again when it restores the file)
+                let deep = format!("{d}/nested/deeper/leaf.txt");
+                conflict.push((deep.clone(), d.clone()));
+                cands.push(deep);
             }
         }
         if !cands.is_empty() {
